@@ -10,7 +10,7 @@ use serde_json::json;
 use std::collections::BTreeSet;
 
 /// (field type, `#[default(..)]` argument or "" for no attribute, reference value expression, kind)
-const EXPRS: [(&str, &str, &str, &str); 19] = [
+const EXPRS: [(&str, &str, &str, &str); 20] = [
     ("u8", "", "0u8", "none"),
     ("u8", "5", "5u8", "int-literal"),
     ("String", "\"abc\"", "String::from(\"abc\")", "string-literal"),
@@ -31,9 +31,11 @@ const EXPRS: [(&str, &str, &str, &str); 19] = [
     // conversions that exist ONLY as a hand-written `impl Into<Target> for Source` (no From)
     ("Tgt", "SRC", "Tgt(3)", "into-only-const-path"),
     ("Tgt", "\"three\"", "Tgt(5)", "into-only-string-literal"),
+    // a parenthesised path is NOT "a path": no Into, so the ordinary unsize coercion &[u8; 3] -> &[u8] applies
+    ("&'static [u8]", "(BYTES)", "&[1u8, 2, 3][..]", "parenthesised-path-needing-coercion"),
 ];
 
-const PRELUDE: &str = "pub mod p { pub const C8: u8 = 9; }\npub const C8: u8 = 9;\npub const S9: &str = \"s9\";\npub struct K;\nimpl K { pub const N: u32 = 11; }\n#[derive(Debug, PartialEq, Clone)] pub enum E { A, B }\npub fn mk(x: u8) -> u8 { x }\npub struct Src;\npub const SRC: Src = Src;\n#[derive(Debug, PartialEq)] pub struct Tgt(pub u8);\nimpl ::core::convert::Into<Tgt> for Src { fn into(self) -> Tgt { Tgt(3) } }\nimpl<'a> ::core::convert::Into<Tgt> for &'a str { fn into(self) -> Tgt { Tgt(self.len() as u8) } }\n";
+const PRELUDE: &str = "pub const BYTES: &[u8; 3] = &[1, 2, 3];\npub mod p { pub const C8: u8 = 9; }\npub const C8: u8 = 9;\npub const S9: &str = \"s9\";\npub struct K;\nimpl K { pub const N: u32 = 11; }\n#[derive(Debug, PartialEq, Clone)] pub enum E { A, B }\npub fn mk(x: u8) -> u8 { x }\npub struct Src;\npub const SRC: Src = Src;\n#[derive(Debug, PartialEq)] pub struct Tgt(pub u8);\nimpl ::core::convert::Into<Tgt> for Src { fn into(self) -> Tgt { Tgt(3) } }\nimpl<'a> ::core::convert::Into<Tgt> for &'a str { fn into(self) -> Tgt { Tgt(self.len() as u8) } }\n";
 
 #[derive(Clone, Debug)]
 struct Case {
@@ -345,12 +347,17 @@ fn build(c: &Case, tier: &str, bi: &Built) -> XCase {
 
 pub fn run(ctx: &Ctx, rep: &mut Report) {
     let thorough = ctx.tier.is_thorough();
-    rep.rule = "terminal state = (struct/enum shape, choice of #[default] variant(s) incl. none / several / a value on the variant attribute, per-field #[default(expr)] from 18 expression kinds with a bounded number of attributed fields, type-level value in {none, constructor call, path, string literal}, with or without bound(..) arguments sharing the attributes on a generic type, entry point); distinct by program text; non-trivial = at least one explicit value".into();
+    rep.rule = "terminal state = (struct/enum shape, choice of #[default] variant(s) incl. none / several / a value on the variant attribute, per-field #[default(expr)] from 19 expression kinds with a bounded number of attributed fields, type-level value in {none, constructor call, path, string literal}, with or without bound(..) arguments sharing the attributes on a generic type, entry point); distinct by program text; non-trivial = at least one explicit value".into();
     rep.assumptions = vec!["reference constructor: type-level value wins; else struct / #[default] variant / only variant with each field = its expression (through Into exactly for string literals and paths: field types are chosen so that a missing or superfluous Into does not compile) or Default::default(); compared by Debug text; rejected shapes (no / several default variants, value on a variant attribute) must expand to compile_error!".into()];
     let mut cases = Vec::new();
     let gens: [(&str, fn(&mut Ch, bool) -> Option<Case>); 3] = [("fields", gen_fields), ("variants", gen_variants), ("type-level", gen_type_level)];
     if let Some(p) = &ctx.replay {
         let v: serde_json::Value = serde_json::from_str(&std::fs::read_to_string(p).expect("replay file")).expect("replay json");
+        if v["case"]["gen"] == "generic-type-level" {
+            let x: Vec<XCase> = generic_type_level_cases(ctx.tier.name()).into_iter().filter(|x| x.detail["item"] == v["case"]["item"] && x.detail["entry"] == v["case"]["entry"]).collect();
+            run_and_compare(rep, "c11", &x);
+            return;
+        }
         let vec: Vec<usize> = v["case"]["vector"].as_array().unwrap().iter().map(|x| x.as_u64().unwrap() as usize).collect();
         let th = v["case"]["tier"] == "thorough";
         let g = gens.iter().find(|g| v["case"]["gen"] == g.0).map(|g| g.1).unwrap_or(gen_fields);
@@ -385,5 +392,45 @@ pub fn run(ctx: &Ctx, rep: &mut Report) {
             x.push(build(c, ctx.tier.name(), &bi));
         }
     }
+    if ctx.replay.is_none() {
+        x.extend(generic_type_level_cases(ctx.tier.name()));
+    }
     run_and_compare(rep, "c11", &x);
+}
+
+/// A type-level value on a GENERIC type whose parameter has no `Default` impl: the fields' own defaults are not used,
+/// so `default()` must exist for that instantiation and return the type-level value.
+fn generic_type_level_cases(tier: &str) -> Vec<XCase> {
+    let mut v = Vec::new();
+    let items = [
+        ("#[default(Self::mk())] pub struct X<T: New> { pub a: T, pub b: u8 }", "X { a: T::new(), b: 3 }", "X { a: NoDef(7), b: 3 }"),
+        ("#[default(Self::mk())] pub struct X<T: New>(pub T, #[default(9)] pub u8);", "X(T::new(), 3)", "X(NoDef(7), 3)"),
+        ("#[default(Self::mk())] pub enum X<T: New> { A(T), B { q: Option<T> } }", "X::A(T::new())", "A(NoDef(7))"),
+        ("#[default(X::B)] pub enum X<T: New> { A(T), B }", "X::B", "B"),
+    ];
+    for (item, mk, expected) in items {
+        for entry in Entry::BOTH {
+            let head = match entry {
+                Entry::Attr => "#[derive_ex(Default)]".to_string(),
+                Entry::Derive => "#[derive(Ex)]\n#[derive_ex(Default)]".to_string(),
+            };
+            let code = format!("use derive_ex::{{derive_ex, Ex}};\npub trait New {{ fn new() -> Self; }}\n#[derive(Debug)] pub struct NoDef(pub u8);\nimpl New for NoDef {{ fn new() -> Self {{ NoDef(7) }} }}\n#[derive(Debug)]\n{head}\n{item}\nimpl<T: New> X<T> {{ pub fn mk() -> Self {{ {mk} }} }}\npub fn run() -> String {{ format!(\"{{:?}}\", <X<NoDef> as ::core::default::Default>::default()) }}\n");
+            let mut atoms = BTreeSet::new();
+            atoms.insert(format!("entry={}", entry.name()));
+            atoms.insert("type_level=generic-without-Default".to_string());
+            v.push(XCase {
+                text: format!("{} {}", entry.name(), item),
+                code,
+                expected: expected.to_string(),
+                atoms,
+                nontrivial: true,
+                detail: json!({"gen": "generic-type-level", "tier": tier, "entry": entry.name(), "item": item}),
+                what: format!("derive_ex(Default) via {} on `{}` instantiated with a parameter that has no Default", entry.name(), item),
+                inner: 1,
+                symptom: "default-value-differs".into(),
+                must_compile: true,
+            });
+        }
+    }
+    v
 }
